@@ -15,7 +15,7 @@ LEVEL = "exploration"
 TECHNIQUE = "runtime monitor: cross-process differential observation (PYTHONHASHSEED varied) of seeds and first draws after update_seeds"
 RULE = ("each case is a batch of 25 generated configurations (1-6 streams; names incl. 'default', empty, unicode, "
         "long; seeds incl. 0/negative/huge; r in 0..7; SimpleStreamUpdater or StreamSeedUpdater with complete / "
-        "partial / short tables; update_seeds or update_seed one by one; variants: permuted listing, prior stream use, updater reuse, each stream alone, seed table completed after the updater was built, table built through a StreamSeedInformation next to a decoy one) evaluated by 5 child interpreters with "
+        "partial / short tables; update_seeds or update_seed one by one; variants: permuted listing, prior stream use, updater reuse, each stream alone, seed table completed after the updater was built, table built through a StreamSeedInformation next to a decoy one, updates after updates the same updater refused) evaluated by 5 child interpreters with "
         "PYTHONHASHSEED in {0, 1, 4242, random, random}; plus in-process refusal probes (r negative / float / str / "
         "None / beyond the list); non-trivial = configuration with >= 2 streams, r >= 1 and a non-empty name; distinct "
         "= canonical configuration hash")
@@ -122,6 +122,18 @@ def run_case(case, ctx):
                                                       "late": "when-the-seed-table-was-filled", "info": "another-seed-information-object",
                                                       "ddict": "the-dict-type-of-the-seed-table"}[variant],
                                      {**info, "stream": n, "base": r["base"][n], variant: r[variant][n], "hashseed": h})
+                            return
+            if cfg["updater"] == "table":
+                # (h) updates the same updater refused earlier leave nothing behind
+                ctx.count("updates_after_refused_updates")
+                rr = r["refused"]
+                if (rr.get("__error__") is None) != (err is None) and not (err is not None and not cfg.get("one_by_one")):
+                    ctx.viol("depends-on-updates-refused-before", {**info, "base_error": err, "error_after_refusals": rr.get("__error__"), "hashseed": h})
+                    return
+                if err is None and rr.get("__error__") is None:
+                    for n in names:
+                        if rr[n] != r["base"][n]:
+                            ctx.viol("depends-on-updates-refused-before", {**info, "stream": n, "base": r["base"][n], "after_refusals": rr[n], "hashseed": h})
                             return
             if err is None:
                 for n in names:
